@@ -77,6 +77,8 @@ type ContractSet struct {
 	Protected map[string]bool
 	// ghost sets that are empty at every freshly allocated reference
 	FreshFalse map[string]bool
+	// ghost name -> "pkgpath.Type.field": the ghost is represented by that field
+	GhostAlias map[string]string
 }
 
 type Macro struct {
@@ -87,7 +89,7 @@ type Macro struct {
 }
 
 func newContractSet() *ContractSet {
-	return &ContractSet{ByFunc: map[string]*Contract{}, Field: map[string]*Contract{}, Ghost: map[string]string{}, Macros: map[string]*Macro{}, ConstGlobals: map[string]bool{}, Protected: map[string]bool{}, FreshFalse: map[string]bool{}}
+	return &ContractSet{ByFunc: map[string]*Contract{}, Field: map[string]*Contract{}, Ghost: map[string]string{}, Macros: map[string]*Macro{}, ConstGlobals: map[string]bool{}, Protected: map[string]bool{}, FreshFalse: map[string]bool{}, GhostAlias: map[string]string{}}
 }
 
 var reKind = regexp.MustCompile(`^(requires|ensures|modifies|decreases|invariant|assume|let|cover|allocates|alloc|use|postuse|secret|niout)(\[[A-Za-z0-9, ]+\])?(\([A-Za-z0-9_.\-]+\))?\s+(.*)$`)
@@ -182,6 +184,14 @@ func (cs *ContractSet) ParseFile(path string, pkg string, external bool) error {
 			cs.Field[full] = cur
 			last = nil
 			lastMacro = nil
+			continue
+		case strings.HasPrefix(line, "ghostalias "):
+			// ghostalias <ghost> <Type>.<field>  (Type of the contract file's package)
+			f := strings.Fields(line)
+			if len(f) != 3 || !strings.Contains(f[2], ".") {
+				return fmt.Errorf("%s:%d: bad ghostalias", path, ln)
+			}
+			cs.GhostAlias[f[1]] = pkg + "." + f[2]
 			continue
 		case strings.HasPrefix(line, "ghost "):
 			// ghost <name> <sort...>
@@ -379,4 +389,14 @@ func hasProp(ps []string, p string) bool {
 // onlyInline: the contract only marks the function as an inlinable leaf.
 func (c *Contract) onlyInline() bool {
 	return c.Inline && len(c.Requires) == 0 && len(c.Ensures) == 0 && len(c.Modifies) == 0 && len(c.Secrets) == 0
+}
+
+// forProp: the same contract counted towards another property (a callee
+// contract that a function under that property is checked against).
+func (c *Contract) forProp(p string) *Contract {
+	d := *c
+	if !hasProp(d.Props, p) {
+		d.Props = append(append([]string{}, d.Props...), p)
+	}
+	return &d
 }
